@@ -201,6 +201,7 @@ fn main() {
                     "degenerate" => hs.push(gen2::degenerate_history(s, thorough)),
                     "neighbours" => hs.push(gen2::neighbours_history(s)),
                     "skewed" => hs.push(gen2::skewed_history(s, thorough)),
+                    "overwrite" => hs.push(gen2::overwrite_history(s)),
                     other => panic!("unknown family {other}"),
                 }
             }
